@@ -1,4 +1,5 @@
 import TypstyleModel.Proofs.Import
+import TypstyleModel.Proofs.Tokens
 /-! C19 — import items are reordered only on request, and then only permuted.  `importOrder` is
 the order in which `convert_import_items` hands the (flattened) item nodes to the list stylist;
 it is the only place of the model that reads `reorder`. -/
@@ -20,7 +21,7 @@ theorem C19_always_a_permutation (cfg : PConfig) (nodes : List ANode) : (importO
 /-- T19.2b: with reordering on, and no comment and no name bound twice, the items are sorted by
 their source text (code-point order = byte order of valid UTF-8). -/
 theorem C19_on_sorted (cfg : PConfig) (nodes : List ANode) (h : cfg.reorder = true) (hs : importSortable nodes = true) :
-    SortedBy ANode.intoText (importOrder cfg nodes) := by
+    SortedBy importSortKey (importOrder cfg nodes) := by
   simp only [importOrder, h, hs, Bool.and_self, if_true]
   exact stableSort_sorted _ _
 
@@ -72,8 +73,33 @@ theorem C19_duplicate_keeps_order (cfg : PConfig) (nodes : List ANode)
     | true => exact absurd (noDupNames_sound nodes [] h).1 hd
   simp [importOrder, this]
 
-/-- Sorting an already sorted import changes nothing (a second run with reordering on is a no-op on the order). -/
-theorem C19_sorted_permutation_is_unique (cfg : PConfig) (nodes : List ANode) :
-    (importOrder cfg nodes).length = nodes.length := (C19_always_a_permutation cfg nodes).length_eq
+/-- T19.3: sorting is idempotent — sorting the sorted items again (a second run with reordering
+on) changes nothing; in particular items with equal keys keep their order (stability). -/
+theorem C19_sorting_is_idempotent (nodes : List ANode) :
+    stableSort importSortKey (stableSort importSortKey nodes) = stableSort importSortKey nodes :=
+  stableSort_idem importSortKey nodes
+
+/-- T19.3b: items that are already in order are left exactly as they are. -/
+theorem C19_sorted_items_are_kept (cfg : PConfig) (nodes : List ANode) (h : SortedBy importSortKey nodes) :
+    importOrder cfg nodes = nodes := by
+  unfold importOrder
+  split
+  · exact stableSort_id_of_sorted importSortKey nodes h
+  · rfl
+
+/-- T19.4 ("nothing else in the output differs", token side, by construction): whatever the flag,
+the code tokens and the literals of the rendered output — at every width and indent unit — are those
+of the source tree with only the children of sortable import item lists rearranged (`reorderTree`);
+with the flag off that tree is the source tree (`reorderTree_off`).  Conditional on the per-case
+certificates `tok` and `lit`, which are evaluated under both values of the flag. -/
+theorem C19_only_import_items_move (cfg : PConfig) (root : Node) (d : Twin.Doc)
+    (ht : tokensCertifiedR cfg root d = true) (hl : literalsCertifiedR cfg root d = true) (u w : Nat) :
+    Pretty.tokText (Pretty.best w 0 [⟨0, .brk, d.fam u⟩]) = (specToks (reorderTree cfg (prepare root))).toList ∧
+    Pretty.litText (Pretty.best w 0 [⟨0, .brk, d.fam u⟩]) = (specLit (reorderTree cfg (prepare root))).toList :=
+  ⟨certified_tokensR cfg root d ht u .brk _ (Pretty.pretty_lay w _),
+   certified_literalsR cfg root d hl u .brk _ (Pretty.pretty_lay w _)⟩
+
+theorem C19_flag_off_tree_is_unchanged (cfg : PConfig) (h : cfg.reorder = false) (t : ANode) :
+    reorderTree cfg t = t := reorderTree_off cfg h t
 
 end Typstyle
